@@ -82,6 +82,11 @@ def run_lemma(idx, timeout_s):
     t0 = time.time()
     try:
         hyps, goal = fn()
+        cov = Obligation(name + ":cover", "cover", hyps, None)
+        cov.expect_sat = True
+        solve.discharge(cov, timeout_s)
+        if cov.status == "unsat":
+            return {"name": name, "props": props, "status": "error", "backend": "hypotheses of the lemma are contradictory", "time": 0}
         ob = Obligation(name, "lemma", hyps, goal)
         solve.discharge(ob, timeout_s)
         return {"name": name, "props": props, "status": ob.status, "backend": ob.backend, "time": round(time.time() - t0, 4)}
@@ -162,7 +167,7 @@ def main():
             n_real += 1
             full = f"{prop}/{r['name']}[{r['self_cls']}]::{ob['name']}" if r["self_cls"] else f"{prop}/{ob['name']}"
             ob["full"] = full
-            kc = ob["kind"].split(":")[0] if ob["kind"].startswith("raises-unexpected") else ("post" if ob["kind"].startswith("post.") else ob["kind"])
+            kc = ob["kind"].split(":")[0] if ob["kind"].startswith("raises-unexpected") else _kind_class(ob["kind"])
             ob["key"] = f"{r['name']}[{r['self_cls']}]::{kc}"
             keys_seen.setdefault(ob["key"], True)
             if ob["status"] != "unsat":
@@ -298,6 +303,13 @@ def main():
     for l in lines:
         print(l)
     return exit_code
+
+
+def _kind_class(kind):
+    """stable class of an obligation kind: clause numbers (post.3, inv-preserved.2:L1) are dropped"""
+    head, _, rest = kind.partition(":")
+    head = head.split(".")[0]
+    return head + (":" + rest if rest else "")
 
 
 def safe_name(s):
